@@ -21,11 +21,29 @@
       [C10_stuck_set_never_accepted]: an input with a non-empty self-supporting set of items (each
       has an undefined field type or embeds, by value, a member of the set -- e.g. any by-value
       cycle) is not accepted under ANY schedule ([C10_cycle_example]: two mutually embedding types);
-    NOT PROVED: N2 for the model's attempt (a deferral always has such a cause -- false as stated when a
-      size overflows: the model, like pyxis, then defers forever), so the converse direction is partial.  The monitor decides the property
-    on the real implementation against the graph-theoretic expectation. *)
+    - [C10_attempt_N2] (StuckConverse.v): N2 for the model's real attempt -- a deferral of an unresolved
+      item always has a cause: a field type that names nothing, a by-value dependency that is still
+      unresolved, or an overflow (an array whose byte size exceeds usize, or a layout whose unbounded
+      end offset does: the model, like pyxis, then defers forever -- [C10_overflow_example]);
+    - [C10_noprogress_list_exact]: the list of the no-progress error is exactly the set of items still
+      unresolved in a reachable state, it is not empty, it supports itself (each member names
+      nothing, overflows, or embeds another member by value) and it contains every self-supporting
+      set of items; [C10_noprogress_list_greatest]: without overflow it IS the greatest
+      self-supporting set;
+    - [C10_wellfounded_never_noprogress] / [C10_no_self_supporting_never_noprogress]: the "if"
+      direction -- every name resolves, nothing overflows and by-value embedding is well founded (resp.
+      there is no non-empty self-supporting set): the front half ends, under EVERY schedule, in an
+      accepted build or an error value (misaligned field, bad attribute ...), never in the
+      no-progress error; [C10_no_overflow_decidable]: a decidable sufficient condition for the
+      overflow hypothesis; [C10_pointer_cycle_example], [C10_undefined_name_example].
+    Together: for inputs meeting the side conditions of C09.v and without overflow, the
+    no-progress error occurs under some/every schedule iff a non-empty self-supporting set exists.
+    NOT PROVED: that an [overflows] cause always makes the attempt defer (tightness of the third
+    disjunct; not needed for either direction).  The monitor decides the property on the real
+    implementation against the graph-theoretic expectation. *)
 From Coq Require Import List Bool NArith String.
 From Coq Require Import Permutation.
+From PyxisModel Require Import StuckConverse.
 From PyxisModel Require Import Base Grammar SemTypes Registry Sem SemLemmas TotalityLemmas Confluence WholeBuild
      Monotone OrderIndep Stuck.
 Import ListNotations.
@@ -112,3 +130,86 @@ Theorem C10_cycle_example : forall order, (forall l, Permutation (order l) l) ->
   forall st, pyxis_resolve order 4 cycle_mods <> BOk st.
 Proof. exact cycle_never_accepted. Qed.
 Print Assumptions C10_cycle_example.
+
+(** ** the converse: why an attempt defers, what the no-progress list is, and when it cannot occur *)
+Theorem C10_attempt_N2 : forall st0 : sstate,
+  collision_free (st_reg st0) ->
+  PlacementLemmas.reg_u8 (st_reg st0) ->
+  (forall km, In km (st_modules st0) -> clean_module (snd km) = true) ->
+  (forall p it gd, reg_get (st_reg st0) p = Some it -> it_state it = Unresolved gd -> clean_def gd = true) ->
+  FinalState.unres_defined (st_reg st0) ->
+  forall (A : astate) (k : path),
+  att st0 A k = Confluence.Defer resolved -> In k (items st0) -> A k = None ->
+  undefinedb st0 k = true \/
+  (exists d, In d (deps st0 k) /\ In d (items st0) /\ A d = None) \/
+  overflows st0 A k.
+Proof. exact att_N2. Qed.
+Print Assumptions C10_attempt_N2.
+
+Theorem C10_noprogress_list_exact : forall ptr mods st0,
+  input_state ptr mods = Ok st0 -> collision_free (st_reg st0) -> clean_stateb st0 = true ->
+  forall order : schedule, (forall l, Permutation (order l) l) ->
+  forall l, pyxis_resolve order ptr mods = BNoProgress l ->
+  exists A : astate,
+    reachable st0 A /\ l <> [] /\
+    (forall k, In k l <-> In k (items st0) /\ A k = None) /\
+    self_supporting_in st0 A (fun k => In k l) /\
+    (forall S : path -> Prop, StuckConverse.self_supporting st0 S -> forall k, S k -> In k l).
+Proof. exact pyxis_noprogress_exact. Qed.
+Print Assumptions C10_noprogress_list_exact.
+
+Theorem C10_noprogress_list_greatest : forall ptr mods st0,
+  input_state ptr mods = Ok st0 -> collision_free (st_reg st0) -> clean_stateb st0 = true ->
+  forall order : schedule, (forall l, Permutation (order l) l) ->
+  forall l, no_overflow st0 -> pyxis_resolve order ptr mods = BNoProgress l ->
+  l <> [] /\ StuckConverse.self_supporting st0 (fun k => In k l) /\
+  (forall S : path -> Prop, StuckConverse.self_supporting st0 S -> forall k, S k -> In k l).
+Proof. exact pyxis_noprogress_greatest. Qed.
+Print Assumptions C10_noprogress_list_greatest.
+
+Theorem C10_wellfounded_never_noprogress : forall ptr mods st0,
+  input_state ptr mods = Ok st0 -> collision_free (st_reg st0) -> clean_stateb st0 = true ->
+  forall order : schedule, (forall l, Permutation (order l) l) ->
+  (forall k, In k (items st0) -> undefinedb st0 k = false) ->
+  no_overflow st0 ->
+  (forall k, In k (items st0) -> Acc (embeds st0) k) ->
+  match pyxis_resolve order ptr mods with BOk _ | BErr _ => True | _ => False end.
+Proof. exact pyxis_wf_no_noprogress. Qed.
+Print Assumptions C10_wellfounded_never_noprogress.
+
+Theorem C10_no_self_supporting_never_noprogress : forall ptr mods st0,
+  input_state ptr mods = Ok st0 -> collision_free (st_reg st0) -> clean_stateb st0 = true ->
+  forall order : schedule, (forall l, Permutation (order l) l) ->
+  no_overflow st0 ->
+  (forall S : path -> Prop, StuckConverse.self_supporting st0 S -> forall k, ~ S k) ->
+  match pyxis_resolve order ptr mods with BOk _ | BErr _ => True | _ => False end.
+Proof. exact pyxis_no_self_supporting_no_noprogress. Qed.
+Print Assumptions C10_no_self_supporting_never_noprogress.
+
+Theorem C10_no_overflow_decidable : forall st0 : sstate,
+  forallb (static_okb st0) (items st0) = true -> no_overflow st0.
+Proof. exact static_no_overflow. Qed.
+Print Assumptions C10_no_overflow_decidable.
+
+Theorem C10_pointer_cycle_example : forall order : list path -> list path,
+  (forall l, Permutation (order l) l) ->
+  match pyxis_resolve order 4 ptrcycle_mods with BOk _ | BErr _ => True | _ => False end.
+Proof. exact ptrcycle_resolves. Qed.
+Print Assumptions C10_pointer_cycle_example.
+
+Theorem C10_undefined_name_example : forall (order : list path -> list path) (l : list path),
+  (forall l0, Permutation (order l0) l0) ->
+  pyxis_resolve order 4 undef_mods = BNoProgress l ->
+  In ["m"%string; "A"%string] l /\ In ["m"%string; "B"%string] l.
+Proof. exact undef_in_every_noprogress_list. Qed.
+Print Assumptions C10_undefined_name_example.
+
+Theorem C10_overflow_example :
+  pyxis_resolve (fun l : list path => l) 4 big_mods = BNoProgress [["m"%string; "A"%string]] /\
+  (exists st0 : sstate,
+     input_state 4 big_mods = Ok st0 /\
+     undefinedb st0 ["m"%string; "A"%string] = false /\
+     deps st0 ["m"%string; "A"%string] = [["u64"%string]] /\
+     array_overflow st0 (fun _ : path => None) ["m"%string; "A"%string]).
+Proof. exact big_overflows. Qed.
+Print Assumptions C10_overflow_example.
